@@ -4,7 +4,7 @@ from hypothesis import strategies as st
 
 from vlib import strategies as vs
 from vlib.models import nnsp_nndvi as nm
-from vlib.runner import SubCheck, Violation, sut
+from vlib.runner import Decoy, SubCheck, Violation, sut
 from vlib.tolerant import Forker
 
 
@@ -128,6 +128,8 @@ def check_nndvi(case, ctx):
     with sut(detector="NNDVI"):
         det = NNDVI(**p)
         det.set_reference(np.array(items[0], dtype=float))
+    decoy = Decoy(lambda: NNDVI(**p), lambda d, X_, first: (d.set_reference(X_) if first else d.update(X_)), every=1)
+    decoy.step(np.array(items[0], dtype=float), True)
     model = nm.NNDVIModel(p["k_nn"], p["sampling_times"], p["alpha"])
     model.set_reference(items[0])
     fk = Forker(model, copier=lambda m: m.clone())
@@ -137,6 +139,8 @@ def check_nndvi(case, ctx):
         if len(pooled) < p["k_nn"]:
             ctx.label("truncated-k>distinct")
             break
+        np.random.seed(base + i + 7919)
+        decoy.step(X.copy(), False)
         with sut(detector="NNDVI"):
             np.random.seed(base + i)
             det.update(X)
